@@ -185,6 +185,7 @@ def c10_vocab(run):
     rf_vocab.rf15(run)
     run.min_instances('RF15', 3)
     rf_vocab.rf80(run)
+    rf_vocab.rf85(run)
 
 
 def c17_rf2(run):
@@ -416,6 +417,7 @@ def c06_rf10(run):
     rf_abi.rf10g(run)
     rf_abi.rf65(run)
     run.min_instances('RF65', 2)
+    rf_flow.rf43(run)
     rf_dispatch.rf7f(run)
     run.min_instances('RF7f', 30)
 
